@@ -69,18 +69,39 @@ example :
     let s : NSt := { e := { imports := [⟨some Sp.G, false, 1⟩, ⟨some Sp.F, true, 2⟩, ⟨some Sp.F, false, 3⟩] }, impName := [(2, "imp")] }
     emittedFnames s [] = [(0, "imp")] := by decide
 
-/-- **naming call on a local function**: `set_fn_name(id, name)` with `id` designating a local function stores the name
-    on the function that `id` designates and on no other; every other name is untouched -/
+/-- **naming call on a local function**: `set_fn_name(id, name)` with `id` designating a local function - whatever the id is,
+    below or above the number of function imports - stores the name on the function that `id` designates and on no other; every
+    other name is untouched -/
 theorem c29_set_fn_name_local (s : NSt) (id : Nat) (name : String) (it : Item)
-    (hid : ¬ id < s.e.f.numImp) (hit : s.e.f.items[id]? = some it) (hloc : it.imp = false) :
+    (hit : s.e.f.items[id]? = some it) (hloc : it.imp = false) :
     ∃ s', setFnName s id name = some s' ∧ getName s'.fname it.uid = some name
       ∧ (∀ u, u ≠ it.uid → getName s'.fname u = getName s.fname u)
       ∧ s'.impName = s.impName ∧ s'.lnames = s.lnames ∧ s'.gnames = s.gnames ∧ s'.e = s.e := by
-  refine ⟨{ s with fname := setName s.fname it.uid name }, by simp [setFnName, hid, hit, hloc], ?_, ?_, rfl, rfl, rfl, rfl⟩
+  refine ⟨{ s with fname := setName s.fname it.uid name }, by simp [setFnName, hit, hloc], ?_, ?_, rfl, rfl, rfl, rfl⟩
   · simp [getName_setName]
   · intro u hu
     have : ¬ it.uid = u := fun h => hu h.symm
     simp [getName_setName, this]
+
+/-- **naming call on an imported function** (parsed, added after parsing - with an id behind the local functions - or converted):
+    the name goes to the import entry the function records, to no other import and to no local function -/
+theorem c29_set_fn_name_import (s : NSt) (id : Nat) (name : String) (it : Item)
+    (hit : s.e.f.items[id]? = some it) (himp : it.imp = true) :
+    ∃ s', setFnName s id name = some s' ∧ getName s'.impName it.impId = some name
+      ∧ (∀ k, k ≠ it.impId → getName s'.impName k = getName s.impName k)
+      ∧ s'.fname = s.fname ∧ s'.lnames = s.lnames ∧ s'.gnames = s.gnames ∧ s'.e = s.e := by
+  refine ⟨{ s with impName := setName s.impName it.impId name }, by simp [setFnName, hit, himp], ?_, ?_, rfl, rfl, rfl, rfl⟩
+  · simp [getName_setName]
+  · intro k hk
+    have : ¬ it.impId = k := fun h => hk h.symm
+    simp [getName_setName, this]
+
+/-- the history of finding F38, decided: one parsed import, two local functions, four imports added after parsing (ids 3..6, import
+    entries 1..4); naming function 4 names import entry 2 - not the fifth function import, which the id-range rule picked -/
+example :
+    let e : Edit.St := { f := { items := [⟨0, true, false, 1, 0⟩, ⟨1, false, false, 9, 0⟩, ⟨2, false, false, 10, 0⟩, ⟨3, true, false, 11, 1⟩,
+                                          ⟨4, true, false, 12, 2⟩, ⟨5, true, false, 13, 3⟩, ⟨6, true, false, 14, 4⟩] } }
+    (setFnName { e := e } 4 "renamed1").map (·.impName) = some [(2, "renamed1")] := by decide
 
 /-- **local names.** After `encode` re-indexed the functions (`ys`), the name section carries a local name at
     `(p, l)` exactly when the input named local `l` of the function with id `fi` and the id map sends `fi` to `p` -/
